@@ -63,9 +63,12 @@ fn note(msg: &str) {
     }
 }
 
-fn quiet_stderr(log: &Path) {
+fn quiet_stderr(log: &Path, truncate: bool) {
     if let Some(dir) = log.parent() {
         let _ = fs::create_dir_all(dir);
+    }
+    if truncate {
+        let _ = fs::File::create(log);
     }
     if let Ok(f) = fs::OpenOptions::new().create(true).append(true).open(log) {
         use std::os::fd::AsRawFd;
@@ -201,8 +204,11 @@ fn run_slice(ex: &mut Explorer, seed: u64, t: &Tier) -> Result<SliceResult, Fata
                 iterations: t.pct_per_cfg_depth,
             });
         }
+        if std::env::var("CFBSCHED_ORDER").as_deref() == Ok("pct-first") {
+            scheds.rotate_left(1); // diagnostic knob: lets PCT meet the failures first
+        }
         for sched in &scheds {
-            let mut out = ex.run(sc, sched, want_sample && !sched.is_pct())?;
+            let mut out = ex.run(sc, sched, want_sample)?;
             absorb(&mut res, &mut out, sched.is_pct());
             if let Some(f) = out.failure {
                 // first failure ends the search of this configuration
@@ -889,7 +895,8 @@ fn cmd_run(a: &Args) -> Result<i32, Fatal> {
             "max_steps_per_execution": explore::MAX_STEPS,
             "minimisation": minimise_stats,
             "violation_signatures": violations.iter().map(|v| json!({"sig": v.0, "replay": v.1})).collect::<Vec<_>>(),
-            "known_finding_hits": known_hits,
+            "known_finding_hits": known_hits.len(),
+            "known_finding_details": known_hits,
             "source_root": source_root(),
             "real_vs_stub": {
                 "real": [
@@ -982,10 +989,13 @@ fn main() {
         Ok(a) => {
             explore::install_panic_hook(a.verbose);
             if !a.verbose && a.cmd != "child" {
-                quiet_stderr(Path::new("/verif/target/sched/logs/cfbsched.stderr.log"));
+                quiet_stderr(Path::new("/verif/target/sched/logs/cfbsched.stderr.log"), a.cmd == "run");
             }
             let r = match a.cmd.as_str() {
-                "run" => cmd_run(&a),
+                "run" => cmd_run(&a).inspect_err(|_| {
+                    // no evidence is better than the stale evidence of an earlier run
+                    let _ = fs::remove_file(Paths::new(a.out_root.clone()).evidence());
+                }),
                 "replay" => cmd_replay(&a),
                 "child" => cmd_child(&a),
                 _ => Err(Fatal(usage())),
